@@ -98,7 +98,7 @@ Proof.
   - apply c05_replier_ok. intros name. destruct (Ctcp.cfg_version v); apply c05_one_reply_ok.
   - apply c05_replier_ok. intros name. apply c05_one_reply_ok.
   - apply c05_replier_ok. intros name. apply c05_one_reply_ok.
-  - apply c05_replier_ok. intros name. rewrite Hconn. cbn [negb]. apply c05_one_reply_ok.
+  - apply c05_replier_ok. intros name. rewrite ?Hconn. cbn [negb]. apply c05_one_reply_ok.
 Qed.
 
 Lemma c05_ctcp_call_ok v c : Ctcp.connected v = true -> exists o, Ctcp.ctcp_call (Ctcp.default_table v) c = Ok o.
@@ -146,22 +146,3 @@ Qed.
 Theorem client_all_histories cfg sts h : Ctcp.connected (cc_env cfg) = true ->
   exists cs o, client_run cfg (client_init sts) h = Ok (cs, o) /\ Inv (cs_state cs).
 Proof. intros Hconn. apply client_run_ok; [exact Hconn|]. exact inv_init. Qed.
-
-(* the hypothesis is needed: the FINGER replier dereferences Client.conn, which Connect sets
-   to nil when it returns; the replier runs in a goroutine of its own, so a request that is
-   still in flight when the connection ends finds it nil. *)
-Definition finger_request : event :=
-  mkEvent (Some (mkSource (bs "x") [] [])) None (bs "PRIVMSG") [bs "me"; 1 :: bs "FINGER" ++ [1]].
-
-Theorem finger_after_disconnect_panics : forall cfg cs, Ctcp.connected (cc_env cfg) = false ->
-  Inv (cs_state cs) -> client_step cfg cs finger_request = Panic.
-Proof.
-  intros cfg cs Hd I. unfold client_step.
-  destruct (handle_inv (cc_state cfg) (cs_state cs) finger_request I) as (s' & o1 & H1 & I1). rewrite H1. cbn [rbind].
-  destruct (sasl_stage_ok cfg finger_request) as (o2 & H2). rewrite H2. cbn [rbind].
-  assert (H4 : Ctcp.ctcp_stage (Ctcp.default_table (cc_env cfg)) (to_ctcp_event finger_request) = Panic).
-  { unfold Ctcp.ctcp_stage. vm_compute Ctcp.decode_ctcp. cbn [rbind].
-    unfold Ctcp.ctcp_call. cbn [Ctcp.lookup Ctcp.default_table]. vm_compute streqb. cbn [rbind Ctcp.c_command].
-    vm_compute streqb. cbn. rewrite Hd. reflexivity. }
-  rewrite H4. reflexivity.
-Qed.
